@@ -27,7 +27,7 @@ VERIF = os.path.dirname(HERE)
 sys.path.insert(0, VERIF)
 sys.path.insert(0, HERE)
 REPO = os.environ.get('KV_REPO', '/repo')
-ALL_PROPS = ['C01', 'C02', 'C03', 'C04', 'C05', 'C06', 'C07', 'C08', 'C09', 'C10', 'C12', 'C13', 'C14', 'C15', 'C16', 'C17', 'C18', 'C20']
+ALL_PROPS = ['C01', 'C02', 'C03', 'C04', 'C05', 'C06', 'C07', 'C08', 'C09', 'C10', 'C11', 'C12', 'C13', 'C14', 'C15', 'C16', 'C17', 'C18', 'C19', 'C20']
 
 
 def make_copy(tag):
